@@ -337,7 +337,16 @@ pub const INDENTS: Table = &[
 ];
 
 pub fn indent() -> impl Strategy<Value = String> {
-    table(INDENTS).prop_map(|s| s.to_string())
+    prop_oneof![
+        60 => table(INDENTS).prop_map(|s| s.to_string()).boxed(),
+        // long indents on a logarithmic scale (deeply nested quotes, wide
+        // hanging indents): spaces, "> " repeated, a CJK character repeated
+        1 => (log_count(300), 0usize..3).prop_map(|(n, k)| match k {
+            0 => " ".repeat(n),
+            1 => "> ".repeat(n / 2 + 1),
+            _ => "\u{65e5}".repeat(n / 2 + 1),
+        }).boxed(),
+    ]
 }
 
 pub fn width() -> BoxedStrategy<usize> {
